@@ -29,10 +29,10 @@ let kind_name (k : fkind) : String.t =
   | FSpecInsert -> "SpecInsert" | FSpecDelete -> "SpecDelete" | FSpecConstraint -> "SpecConstraint"
   | FNoop -> "Noop" | FRoundtrip -> "Roundtrip" | FInterfere -> "Interfere" | FNotRouted -> "NotRouted"
   | FSame -> "Same" | FDumpOf -> "DumpOf"
-  | FBuiltin -> "Builtin" | FOci -> "Oci" | FOciModel -> "OciModel" | FOciName -> "OciName" | FUnknownRouter -> "UnknownRouter"
+  | FBuiltin -> "Builtin" | FOci -> "Oci" | FOciModel -> "OciModel" | FOciName -> "OciName" | FUnknownRouter -> "UnknownRouter" | FArcs -> "Arcs"
 
 let () =
-  let state = ref [] in
+  let state = ref init_fstate in
   let lineno = ref 0 in
   let nfind = ref 0 in
   let stats = Array.length Sys.argv > 1 && Sys.argv.(1) = "--stats" in
